@@ -85,7 +85,7 @@ fn main() {
             let shard: usize = arg_val(&args, "--shard").unwrap().parse().unwrap();
             let nshards: usize = arg_val(&args, "--nshards").unwrap().parse().unwrap();
             let out = arg_val(&args, "--out").unwrap();
-            let ctx = Ctx { id: id.clone(), tier, seed: env_seed(), shard, nshards, known: load_known(), scale: env_scale() };
+            let ctx = Ctx { id: id.clone(), tier, seed: env_seed(), shard, nshards, known: load_known(), scale: env_scale(), replay_attempts: 3 };
             let chk = checks::get(&id).expect("unknown check");
             let mut rec = Rec::default();
             chk.run_shard(&ctx, &mut rec);
@@ -186,7 +186,7 @@ fn cmd_replay(file: &str) -> i32 {
         eprintln!("{e}");
         return 2;
     }
-    let ctx = Ctx { id: f.property.clone(), tier: Tier::Quick, seed: env_seed(), shard: 0, nshards: 1, known: load_known(), scale: 1.0 };
+    let ctx = Ctx { id: f.property.clone(), tier: Tier::Quick, seed: env_seed(), shard: 0, nshards: 1, known: load_known(), scale: 1.0, replay_attempts: 3 };
     match chk.replay(&ctx, &f.sub, &f.case) {
         Verdict::Pass => {
             println!("replay {}: property holds on this case", file);
@@ -228,7 +228,7 @@ fn cmd_check(id: &str, tier: Tier, args: &[String]) -> i32 {
     let mut total = Rec::default();
 
     // 1. regression tier: committed replay files
-    let ctx0 = Ctx { id: id.to_string(), tier, seed, shard: 0, nshards: 1, known: known.clone(), scale: env_scale() };
+    let ctx0 = Ctx { id: id.to_string(), tier, seed, shard: 0, nshards: 1, known: known.clone(), scale: env_scale(), replay_attempts: 1 };
     let rdir = format!("/verif/replays/{}", id);
     let mut replay_files: Vec<PathBuf> = std::fs::read_dir(&rdir)
         .map(|rd| rd.flatten().map(|e| e.path()).filter(|p| p.extension().map(|x| x == "json").unwrap_or(false)).collect())
